@@ -36,6 +36,32 @@ def permit_binding(b):
     return locs, from_env
 
 
+def executing_field_names(hs):
+    """local / upvar name -> field name of PolicyStateKind::Executing, for the body that builds the state
+    (run: `Executing { cancel: Arc::clone(&x), .. }`) and the bodies that take it apart (cancel)."""
+    out = {}
+    for name, h in hs.items():
+        for k, b in h.bodies.items():
+            for blk in b.blocks:
+                for st in blk["s"]:
+                    if st["k"] != "assign":
+                        continue
+                    r = st["r"]
+                    if r["k"] == "agg" and r.get("variant") == "Executing" and r.get("fields"):
+                        for fi, o in enumerate(r["ops"]):
+                            if o["k"] == "const":
+                                continue
+                            nm = sm.name_of_operand(b, o)
+                            if nm:
+                                out[nm.split(".")[-1]] = r["fields"][fi]
+                    pl = r["o"]["p"] if r["k"] == "use" and r["o"]["k"] != "const" else (r["p"] if r["k"] in ("ref",) else None)
+                    if pl is not None and not st["p"]["pr"]:
+                        fl_ = [e for e in pl["pr"] if isinstance(e, dict) and e.get("n") and "PolicyStateKind" in (e.get("a") or "")]
+                        if fl_ and b.locals[st["p"]["l"]]["name"]:
+                            out[b.locals[st["p"]["l"]]["name"]] = fl_[-1]["n"]
+    return out
+
+
 class Srv:
     def __init__(self, ctx, res):
         import env
@@ -1032,10 +1058,16 @@ class Srv:
                 # what cancel() signals / waits for in state Executing
                 hc = self.hs.get("cancel")
                 c_sig, c_wait = set(), set()
+                # identity of a Notify = the field of the Executing state it is stored in (independent of
+                # how the locals are called on either side)
+                fmap = executing_field_names(self.hs)
+                canon = lambda nm: fmap.get((nm or "").split(".")[-1], nm)
+                for e in nd + nf:
+                    e.detail = canon(e.detail)
                 if hc and hc.user:
                     cevs = [e for e in hc.events[hc.user[0]] if not e.nested]
-                    c_sig = {e.detail for e in cevs if e.kind == "notify"}
-                    c_wait = {e.detail for e in cevs if e.kind == "notified"}
+                    c_sig = {canon(e.detail) for e in cevs if e.kind == "notify"}
+                    c_wait = {canon(e.detail) for e in cevs if e.kind == "notified"}
                 if nd and len(sc) == 1 and any(b.dominates(x.block, sc[0].block) or True for x in nd):
                     res.ok("R9.cancel", "task|cancel-branch", fl(sc[0].sp), "on cancel: exactly one send_cancel in the task")
                 else:
